@@ -32,6 +32,35 @@ def showRec : Option Ctx → String
   | some c => s!"{c.round}.{c.index}"
 def b (x : Bool) : String := if x then "1" else "0"
 
+def insertSorted (x : Nat) : List Nat → List Nat
+  | [] => [x]
+  | y :: ys => if x < y then x :: y :: ys else if x = y then y :: ys else y :: insertSorted x ys
+
+def sortDedup (l : List Nat) : List Nat := l.foldl (fun acc x => insertSorted x acc) []
+
+def allKinds : List Kind := [.prevote, .precommit, .next, .cert]
+
+def showKinds (l : List Kind) : String := String.join ((allKinds.filter l.contains).map fun k => toString k.code)
+
+def showVoteOver (vo : List (Nat × VoteStatus)) : String :=
+  let hs := sortDedup (vo.map (·.1))
+  String.intercalate "," (hs.map fun h =>
+    let vs := (assocGet vo h).getD {}
+    s!"{h}:{showKinds vs.chamber}:{showKinds vs.house}")
+
+def showCounts (w : Option Wrapper) : String :=
+  match w with
+  | none => ""
+  | some w =>
+    let rows := [("c", w.chamber), ("h", w.house)].flatMap fun (tag, m) =>
+      allKinds.flatMap fun k =>
+        let sta := m.get k
+        let hs := sortDedup (sta.counts.map (·.1) ++ sta.info.map (·.1))
+        hs.filterMap fun h =>
+          if sta.count h = 0 ∧ sta.nInfo h = 0 then none
+          else some s!"{tag} {k.code} {h} {sta.count h} {sta.nInfo h}"
+    String.intercalate "," rows
+
 def showState (s : St) : String :=
   let v := s.v
   let c := s.g.c
@@ -40,7 +69,7 @@ def showState (s : St) : String :=
   s!"v={showON v.round}/{v.index}/{v.step}/{b v.precommitted}{b v.committed}{b v.sentChange}{b v.certificated}{b v.shouldCert}/{showM v.nextMarked}/{showM v.curMarked}/{showM v.nextVoted}" ++
   s!";db={showON c.round}/{c.index}/{c.mark .prevote}/{c.mark .precommit}/{c.mark .next}/{c.mark .cert}" ++
   s!";rec={showRec (p .prevote 1)}/{showRec (p .precommit 1)}/{showRec (p .cert 1)}/{showRec (p .next 1)}/{showRec (p .next 2)}" ++
-  s!";w={ws}"
+  s!";w={ws};vo={showVoteOver v.voteOver};ct={showCounts v.cur?}"
 
 def showOutcome : Outcome → String
   | .done .nil => "nil"
